@@ -30,6 +30,11 @@ trait RefT {
     fn r_req(&self, p0: u32, p1: u32) -> u32;
     fn r_prov(&self, p0: u32, p1: u32) -> u32 { see(format!("prov({p0},{p1})")); self.r_req(p1, p0) + 1 }
 }
+#[unimock(api=LtMock)]
+trait LtT {
+    fn lt_m2<'a>(&self, p0: u32, p1: &'a mut u32) -> u32;
+    fn lt_m3<'a, 'b>(&self, p0: &'a u32, p1: &'b mut u32, p2: &'a mut u32) -> u32;
+}
 fn real_ref2(u: &impl RefT, p0: u32, p1: u32) -> u32 { see(format!("real_ref2({p0},{p1})")); 1000 + p0 * 10 + p1 + u.r_req(p0, p1) }
 fn real_ref3(p2: &mut u32, _u: &impl RefT, p0: u32) -> u32 { see(format!("real_ref3({p2},{p0})")); *p2 += 1; 2000 + p0 }
 
@@ -63,6 +68,8 @@ trait ArcT {
     fn ar_req(&self, p0: u32, p1: u32) -> u32;
     fn ar_m2(self: Arc<Self>, p0: u32, p1: u32) -> u32;
     fn ar_prov(self: Arc<Self>, p0: u32, p1: u32) -> u32 { see(format!("prov({p0},{p1})")); self.ar_req(p1, p0) + 1 }
+    fn ar_prov2(self: Arc<Self>, p0: u32, p1: u32) -> u32 { see(format!("prov2({p0},{p1})")); let x = self.ar_req(p1, p0); self.ar_m2(x, p0) + 1 }
+    fn ar_prov3(self: Arc<Self>, p0: u32, p1: u32) -> u32 { see(format!("prov3({p0},{p1})")); let x = self.clone().ar_m2(p0, p1); self.ar_m2(x, p0) + 1 }
 }
 
 #[unimock(api=PinMock)]
@@ -128,6 +135,27 @@ fn main() {
         let s = seen();
         check("ref.m3.mutation", r == 3 && z == 15 && s == ["match(1,2,5)", "ans(1,2,5)"], format!("ret={r} z={z} seen={s:?}"));
     });
+    // lifetimes spelled out on the references themselves (not inside the pointee): arguments are presented like those of `&mut T`
+    run_case("ref.m2.named-lifetime-mut", || {
+        let u = Unimock::new(LtMock::lt_m2.each_call(&|m| m.func(|(a, b), _| { see(format!("match({a:?},{b:?})")); true })).answers(&|_, a, b| { see(format!("ans({a:?},{b:?})")); *b += a; *b }));
+        let mut z = 40;
+        let r = u.lt_m2(2, &mut z);
+        let s = seen();
+        check("ref.m2.named-lifetime-mut", r == 42 && z == 42 && s == ["match(2,40)", "ans(2,40)"], format!("ret={r} z={z} seen={s:?}"));
+    });
+    run_case("ref.m3.named-lifetime-mut", || {
+        let u = Unimock::new(LtMock::lt_m3.each_call(&|m| m.func(|(a, b, c), _| { see(format!("match({a:?},{b:?},{c:?})")); true })).answers(&|_, a, b, c| { see(format!("ans({a:?},{b:?},{c:?})")); *b += 1; *c += 2; *a }));
+        let (mut y, mut z) = (5, 6);
+        let r = u.lt_m3(&9, &mut y, &mut z);
+        let s = seen();
+        check("ref.m3.named-lifetime-mut", r == 9 && y == 6 && z == 8 && s == ["match(9,5,6)", "ans(9,5,6)"], format!("ret={r} y={y} z={z} seen={s:?}"));
+    });
+    run_case("ref.m2.named-lifetime-mut.rendering", || {
+        let u = Unimock::new(LtMock::lt_m2.each_call(matching!(100, _)).returns(0u32)).no_verify_in_drop();
+        let mut z = 5;
+        let msg = match std::panic::catch_unwind(std::panic::AssertUnwindSafe(|| u.lt_m2(1, &mut z))) { Ok(v) => format!("returned {v}"), Err(p) => p.downcast_ref::<String>().cloned().unwrap_or_default() };
+        check("ref.m2.named-lifetime-mut.rendering", msg.contains("LtT::lt_m2(1, 5)"), msg.replace('\n', " "));
+    });
     run_case("ref.unmock.path", || {
         let u = Unimock::new((RefMock::r_m2.each_call(matching!(_, _)).applies_unmocked(), RefMock::r_req.each_call(matching!(_, _)).answers(&|_, a, b| { see(format!("req({a},{b})")); a + b })));
         let r = u.r_m2(3, 7);
@@ -147,6 +175,38 @@ fn main() {
         let msg = r.err().and_then(|p| p.downcast_ref::<String>().cloned()).unwrap_or_default();
         let _ = std::panic::catch_unwind(std::panic::AssertUnwindSafe(move || drop(u)));
         check("ref.unmock.none-registered", msg.contains("RefT::r_req cannot be unmocked"), format!("msg={msg:?}"));
+    });
+    // a provided method without a registered function: resolving to "unmock" (explicit clause, or partial-mock fall-through of a
+    // rejected call) panics naming the method and is remembered — the default body is not a stand-in for the real implementation
+    run_case("ref.unmock.none-registered.provided", || {
+        let u = Unimock::new(RefMock::r_prov.each_call(matching!(_, _)).applies_unmocked());
+        let r = std::panic::catch_unwind(std::panic::AssertUnwindSafe(|| u.r_prov(1, 2)));
+        let msg = match &r { Ok(v) => format!("returned {v}"), Err(p) => p.downcast_ref::<String>().cloned().unwrap_or_default() };
+        let s = seen();
+        let v = std::panic::catch_unwind(std::panic::AssertUnwindSafe(move || u.verify())).err().and_then(|p| p.downcast_ref::<String>().cloned()).unwrap_or_default();
+        check("ref.unmock.none-registered.provided", msg.contains("RefT::r_prov cannot be unmocked") && s.is_empty() && v.contains("RefT::r_prov cannot be unmocked"), format!("msg={msg:?} seen={s:?} verify={v:?}"));
+    });
+    run_case("ref.unmock.none-registered.provided-partial", || {
+        let u = Unimock::new_partial(RefMock::r_prov.each_call(matching!(9, 9)).returns(1u32).at_least_times(0));
+        let r = std::panic::catch_unwind(std::panic::AssertUnwindSafe(|| u.r_prov(1, 2)));
+        let msg = match &r { Ok(v) => format!("returned {v}"), Err(p) => p.downcast_ref::<String>().cloned().unwrap_or_default() };
+        let s = seen();
+        let _ = std::panic::catch_unwind(std::panic::AssertUnwindSafe(move || drop(u)));
+        check("ref.unmock.none-registered.provided-partial", msg.contains("RefT::r_prov cannot be unmocked") && s.is_empty(), format!("msg={msg:?} seen={s:?}"));
+    });
+    run_case("own.unmock.none-registered.provided", || {
+        let u = Unimock::new(OwnMock::o_prov.each_call(matching!(_, _)).applies_unmocked()).no_verify_in_drop();
+        let r = std::panic::catch_unwind(std::panic::AssertUnwindSafe(move || u.o_prov(1, 2)));
+        let msg = match &r { Ok(v) => format!("returned {v}"), Err(p) => p.downcast_ref::<String>().cloned().unwrap_or_default() };
+        let s = seen();
+        check("own.unmock.none-registered.provided", msg.contains("OwnT::o_prov cannot be unmocked") && s.is_empty(), format!("msg={msg:?} seen={s:?}"));
+    });
+    run_case("rc.unmock.none-registered.provided", || {
+        let u = Rc::new(Unimock::new(RcMock::rc_prov.each_call(matching!(_, _)).applies_unmocked()).no_verify_in_drop());
+        let r = std::panic::catch_unwind(std::panic::AssertUnwindSafe(move || u.rc_prov(1, 2)));
+        let msg = match &r { Ok(v) => format!("returned {v}"), Err(p) => p.downcast_ref::<String>().cloned().unwrap_or_default() };
+        let s = seen();
+        check("rc.unmock.none-registered.provided", msg.contains("RcT::rc_prov cannot be unmocked") && s.is_empty(), format!("msg={msg:?} seen={s:?}"));
     });
     run_case("ref.default.delegation", || {
         let u = Unimock::new(RefMock::r_req.each_call(matching!(_, _)).answers(&|_, a, b| { see(format!("req({a},{b})")); a * 10 + b }).n_times(2));
@@ -311,6 +371,35 @@ fn main() {
         let r = u.ar_prov(3, 7);
         let s = seen();
         check("arc.default.sole-owner", r == 74 && s == ["prov(3,7)", "req(7,3)"], format!("ret={r} seen={s:?}"));
+    });
+    // a sole Arc owner whose default body goes on to consume the Arc in a required method (once; twice through a clone of the handle); and one with an unmet expectation
+    run_case("arc.default.sole-owner-nested", || {
+        let u = Arc::new(Unimock::new((
+            ArcMock::ar_req.each_call(matching!(_, _)).answers(&|_, a, b| { see(format!("req({a},{b})")); a * 10 + b }),
+            ArcMock::ar_m2.each_call(matching!(_, _)).answers(&|_, a, b| { see(format!("m2({a},{b})")); a + b }),
+        )));
+        let r = u.ar_prov2(3, 7);
+        let s = seen();
+        check("arc.default.sole-owner-nested", r == 77 && s == ["prov2(3,7)", "req(7,3)", "m2(73,3)"], format!("ret={r} seen={s:?}"));
+    });
+    run_case("arc.default.sole-owner-nested-twice", || {
+        let u = Arc::new(Unimock::new((
+            ArcMock::ar_m2.next_call(matching!(3, 7)).returns(10u32),
+            ArcMock::ar_m2.next_call(matching!(10, 3)).returns(100u32),
+        )));
+        let r = u.ar_prov3(3, 7);
+        let s = seen();
+        check("arc.default.sole-owner-nested-twice", r == 101 && s == ["prov3(3,7)"], format!("ret={r} seen={s:?}"));
+    });
+    run_case("arc.default.sole-owner-unmet", || {
+        let u = Arc::new(Unimock::new((
+            ArcMock::ar_req.each_call(matching!(_, _)).answers(&|_, a, b| a * 10 + b),
+            ArcMock::ar_m2.next_call(matching!(1, 1)).returns(5u32).n_times(2),
+        )));
+        let r = std::panic::catch_unwind(std::panic::AssertUnwindSafe(move || u.ar_prov(3, 7)));
+        let _ = seen();
+        let msg = match &r { Ok(v) => format!("returned {v} silently"), Err(p) => p.downcast_ref::<String>().cloned().unwrap_or_default() };
+        check("arc.default.sole-owner-unmet", r.is_err() && msg.contains("ar_m2"), msg.replace('\n', " "));
     });
     run_case("arc.m2", || {
         let u = Arc::new(Unimock::new(ArcMock::ar_m2.each_call(matching!(_, _)).answers(&|_, a, b| { see(format!("ans({a},{b})")); a * 100 + b })));
